@@ -32,14 +32,14 @@ T2 = "_ipp._tcp.local."
 
 def floors(tier):
     q = tier == "quick"
-    return {"c15.no_escape": 15000 if q else 1500000, "c15.oversize_ignored": 300 if q else 30000, "c15.canary_query": 100 if q else 10000, "c15.canary_browse": 100 if q else 10000}
+    return {"c15.no_escape": 80000 if q else 10000000, "c15.oversize_ignored": 3000 if q else 400000, "c15.canary_query": 1000 if q else 100000, "c15.canary_browse": 1000 if q else 100000}
 
 
 def plan(tier, seed):
     if tier == "quick":
-        n, per = 16, 10
+        n, per = 16, 80
     else:
-        n, per = 64, 300
+        n, per = 64, 2500
     return [{"seed": seed, "shard": i, "per": per, "tier": tier} for i in range(n)]
 
 
